@@ -5,7 +5,7 @@ VARIANTS = [
     dict(name='starts not carried', edits=[(RED, '            logger.info(f"records consumed: {stops}")\n            starts = stops\n', '            logger.info(f"records consumed: {stops}")\n')]),
     dict(name='stops one row early', edits=[(RED, 'stops = [index[bin1_id] for index in indexes]', 'stops = [index[bin1_id - 1] for index in indexes]')]),
     dict(name='groupby row only', edits=[(RED, 'combined.groupby(["bin1_id", "bin2_id"], sort=True)', 'combined.groupby(["bin1_id"], sort=True)')]),
-    dict(name='singleton slices filtered', edits=[(RED, '                    if (stop - start) > 0\n', '                    if (stop - start) > 1\n')]),
+    dict(name='singleton slices filtered', edits=[(RED, '                if (stop - start) > 0\n', '                if (stop - start) > 1\n')]),
     dict(name='partition skips first epoch', edits=[(RED, '        for bin1_id in bin1_partition[1:]:', '        for bin1_id in bin1_partition[2:]:')]),
     dict(name='tempfile never deleted', edits=[(CR, '''    tf = tempfile.NamedTemporaryFile(
         suffix=".multi.cool", delete=delete, dir=temp_dir
